@@ -223,11 +223,12 @@ def run(tier, seed):
         if want is None:
             rep.tlc(r, "MC_ProtocolRun_" + cfg)
     rep.add(sender_only_filter_with_two_recipients_violates="NoSpuriousError (finding F20)")
-    r = run_tlc("Arrivals", "Arrivals", workers=1, timeout=300)
+    depth = 5 if tier == "quick" else 7
+    r = run_tlc("Arrivals", "Arrivals" if depth == 5 else "Arrivals_deep", workers=1, timeout=600)
     scheds = [json.loads(json.loads('"' + l.strip()[len('<<"SCHED", "'):-3] + '"')) for l in r.out.splitlines() if l.startswith('<<"SCHED"')]
-    rep.tlc(r, "Arrivals(D=5, 2 streams)")
-    if len(scheds) != 243:
-        raise common.Machinery("expected 243 schedules, got %d" % len(scheds))
+    rep.tlc(r, "Arrivals(D=%d, 2 streams)" % depth)
+    if len(scheds) != 3 ** depth:
+        raise common.Machinery("expected %d schedules, got %d" % (3 ** depth, len(scheds)))
     rnd = random.Random(seed)
     jobs = []
     for name, proto in PROTOCOLS.items():
@@ -236,7 +237,7 @@ def run(tier, seed):
             ss = [s for s in ss if 2 not in s]
         jl = [(s, None) for s in ss]
         for fault in proto["faults"]:
-            jl += [(s, fault) for s in (ss if tier == "thorough" else ss[:8])]
+            jl += [(s, fault) for s in (ss[::9] if tier == "thorough" else ss[:8])]
         for k in range(8):
             jobs.append((name, proto, jl[k::8]))
     results = {}
@@ -292,7 +293,7 @@ def run(tier, seed):
         raise common.Machinery("only %d runs completed normally (vacuous)" % ok_runs)
     rep.add(traces_validated_against_impl=nruns, runs_completed_ok=ok_runs, runs_ended_with_error=nruns - ok_runs,
             schedules=len(scheds), exhaustive=(tier == "thorough"),
-            rule="one run of the real IO loop per (protocol, arrival schedule of length 5 over the streams, peer behaviour in "
+            rule="one run of the real IO loop per (protocol, arrival schedule of length %d over the streams, peer behaviour in " % depth +
                  "{valid, violating, wrong type, truncated, silent}), under a virtual clock")
     rep.sample({"protocol": PROTOCOLS["two-senders"]["spec"], "schedule": scheds[100], "fault": None})
     rep.assumptions += ["threads and sockets are replaced by a deterministic scheduler: races inside the socket parties are out of scope",
